@@ -12,7 +12,7 @@ import ast
 from fractions import Fraction
 from typing import Optional
 
-from ..program import AnalysisError, Program, unparse, short, walk_no_nested, increment_of, sequential_expand, single_defs, xunparse
+from ..program import AnalysisError, Program, unparse, short, walk_no_nested, increment_of, sequential_expand, single_defs, xunparse, inline_helpers
 from ..report import Report
 from . import c06, c19
 
@@ -105,34 +105,56 @@ def trigger_rule(prog: Program, rep: Report) -> None:
     fi = prog.role_func("output", "update")
     from ..program import expand_locals
 
-    ifs = [n for n in walk_no_nested(fi.node) if isinstance(n, ast.If)]
-    writes = [n for n in walk_no_nested(fi.node) if isinstance(n, ast.Call) and unparse(n.func) == "self.write"]
-    ok = False
-    step_src = None
-    guards = [g for g in ifs if any(any(x is w for x in ast.walk(g)) for w in writes)]
-    for g in guards:
-        t = expand_locals(g.test, fi.node)
+    from ..paths import enumerate_paths
+
+    step_src = [None]
+
+    def divisible(test: ast.expr):
+        """`<step> % self.output_period_step == 0` (or an equivalent spelling) -> sense True/False; else None."""
+        t = expand_locals(test, fi.node)
+        neg = False
+        while isinstance(t, ast.UnaryOp) and isinstance(t.op, ast.Not):
+            t, neg = t.operand, not neg
+        sense = None
         inner = None
-        if isinstance(t, ast.Compare) and len(t.ops) == 1 and isinstance(t.ops[0], ast.Eq) and unparse(t.comparators[0]) == "0":
-            inner = t.left
-        elif isinstance(t, ast.UnaryOp) and isinstance(t.op, ast.Not):
-            inner = t.operand
+        if isinstance(t, ast.Compare) and len(t.ops) == 1 and unparse(t.comparators[0]) == "0" and isinstance(t.ops[0], (ast.Eq, ast.NotEq)):
+            inner, sense = t.left, isinstance(t.ops[0], ast.Eq)
+        elif isinstance(t, ast.BinOp):
+            inner, sense = t, False  # truthy remainder = not divisible
         if isinstance(inner, ast.BinOp) and isinstance(inner.op, ast.Mod) and unparse(inner.right) == "self.output_period_step":
-            step_src = unparse(inner.left)
-            ok = not g.orelse
-    unguarded = [w for w in writes if not any(any(x is w for x in ast.walk(g)) for g in ifs)]
-    rep.check(rule, fi.qual, "write iff step % output_period_step == 0", ok and len(writes) == 1 and len(guards) == 1 and not unguarded, what_bad=f"trigger is {[short(expand_locals(g.test, fi.node)) for g in guards]} with {len(writes)} write call(s): records are due exactly at the steps that are multiples of the period, with no further condition", what_ok="step % P == 0", loc=fi.loc())
-    rep.check(rule, fi.qual, "step is the timer's current step", step_src in ("self.modules['time'].step", "self.timer.step"), what_bad=f"step = {step_src}", what_ok="timer.step", loc=fi.loc())
+            step_src[0] = unparse(inner.left)
+            return sense != neg
+        return None
+
+    paths = enumerate_paths(fi.node.body)
+    writes = []
+    problems = []
+    for p in paths:
+        calls = [c for s_ in p.steps if s_[0] == "stmt" for c in ast.walk(s_[1]) if isinstance(c, ast.Call) and unparse(c.func) == "self.write"]
+        known = [(divisible(t), taken) for t, taken in p.conds()]
+        facts = {m == taken for m, taken in known if m is not None}
+        unknown = [unparse(expand_locals(t, fi.node)) for (t, taken), (m, _) in zip(p.conds(), known) if m is None]
+        if calls:
+            writes += calls
+            if facts != {True} or unknown or len(calls) != 1:
+                problems.append(f"path {p.describe()} writes {len(calls)} record(s) under {[unparse(expand_locals(t, fi.node)) + ':' + str(k) for t, k in p.conds()]}")
+        elif p.exit != "raise" and facts != {False}:
+            problems.append(f"path {p.describe()} writes nothing although its conditions do not say that the step is off the output schedule")
+    writes = list({id(w): w for w in writes}.values())
+    rep.check(rule, fi.qual, "write iff step % output_period_step == 0", not problems and len(writes) == 1, what_bad=("; ".join(problems[:2]) or f"{len(writes)} write call(s)") + ": records are due exactly at the steps that are multiples of the period, with no further condition", what_ok="step % P == 0", loc=fi.loc())
+    rep.check(rule, fi.qual, "step is the timer's current step", step_src[0] in ("self.modules['time'].step", "self.timer.step"), what_bad=f"step = {step_src[0]}", what_ok="timer.step", loc=fi.loc())
     arg_ok = len(writes) == 1 and [unparse(expand_locals(a, fi.node)) for a in writes[0].args] == ["self.modules['state']"]
     rep.check(rule, fi.qual, "the model state is what gets written", arg_ok, what_bad=f"write called with {[unparse(expand_locals(a, fi.node)) for a in writes[0].args] if writes else None}", what_ok="self.modules['state']", loc=fi.loc())
-    init = prog.role_func("output", "__init__")
+    from ..program import normalized
+
+    init = normalized(prog, prog.role_func("output", "__init__"))
     order = []
     for st in init.node.body:
         for n in ast.walk(st):
             if isinstance(n, ast.Assign):
                 t = unparse(n.targets[0])
                 if t in ("self.output_period", "self.output_period_step"):
-                    order.append((t, unparse(n.value)))
+                    order.append((t, unparse(n.value).replace("self.timer.", "timer.")))
     pos = [i for i, (t, v) in enumerate(order) if t == "self.output_period_step"]
     neg = [i for i, (t, v) in enumerate(order) if t == "self.output_period" and v.startswith("-")]
     okp = len(pos) == 1 and order[pos[0]][1] in ("self.output_period // timer.dt", "int(self.output_period // timer.dt)", "int(self.output_period / timer.dt)") and all(i > pos[0] for i in neg) and order[0][1] == "normalize_period(output_period)"
@@ -163,7 +185,7 @@ def trip_count_rule(prog: Program, rep: Report) -> None:
                     warm_step = int(ast.literal_eval(n.value))
                 except Exception:
                     pass
-    main = prog.func("main.main")
+    main = inline_helpers(prog, prog.func("main.main"))
     loops = [n for n in walk_no_nested(main.node) if isinstance(n, ast.For) and c19._is_time_loop(n)]
     tc = c19.trip_count(loops[0].iter, main.node) if len(loops) == 1 else None
     facts_ok = init_step is not None and inc_v == 1 and warm_step is not None and tc is not None and tc.endswith("Nsteps")
@@ -182,7 +204,9 @@ def trip_count_rule(prog: Program, rep: Report) -> None:
     cold = writes_closed_form(init_step + 1)
     warm = writes_closed_form(warm_step + 1)
     # predicted number of records
-    init = prog.role_func("output", "__init__")
+    from ..program import normalized
+
+    init = normalized(prog, prog.role_func("output", "__init__"))
     env = {"timer.Nsteps": ("sym", "N"), "self.timer.Nsteps": ("sym", "N"), "self.output_period_step": ("sym", "P"), "self.output_period": ("per",), "timer.stop_time - timer.start_time": ("dur",)}
     from ..program import expand_locals
 
